@@ -88,7 +88,17 @@ def slice_patterns(r, box, total):
 
 def run_family(chk, kind, els, boxes, r, tier, tag):
     n = len(els)
-    arr0 = geo.make_array(kind, els, "float64")
+    # half of the families live in a window of a larger array (non-zero buffer offset, elements before and behind the window):
+    # the index is then built from the bounds of a sliced array
+    pad = r.choice((0, 0, 1, 2, 3))
+    if pad and any(e is not None and geo.verts_of(kind, e) for e in els):
+        filler = [e for e in els if e is not None and geo.verts_of(kind, e)]
+        front = [filler[(i * 7 + 1) % len(filler)] for i in range(pad)]
+        back = [filler[(i * 5 + 2) % len(filler)] for i in range(r.choice((0, 1, 2)))]
+        arr0 = geo.make_array(kind, front + els + back, "float64")[pad:pad + n]
+    else:
+        pad = 0
+        arr0 = geo.make_array(kind, els, "float64")
     tot = total_box(kind, els)
     for bi, box in enumerate(boxes):
         pats = slice_patterns(r, box, tot)
@@ -100,7 +110,7 @@ def run_family(chk, kind, els, boxes, r, tier, tag):
         idx_cfg = [(0, None)] + ([(r.choice((1, 2, 3, 512)), r.choice((1, 5, 10)))] if bi % 2 == 0 else [])
         for ps, p in idx_cfg:
             for cname, obj, labels in containers(kind, arr0, els, r)[: (3 if bi % 4 == 0 else 1 + bi % 3)]:
-                rep = dict(api=f"{cname}.cx", kind=kind, elements=els, slice_ends=list(ends), pattern=pname, page_size=ps, p=p)
+                rep = dict(api=f"{cname}.cx", kind=kind, elements=els, slice_ends=list(ends), pattern=pname, page_size=ps, p=p, window_offset=pad)
                 perm = []
                 try:
                     hist = "no-index"
@@ -146,7 +156,7 @@ def run_family(chk, kind, els, boxes, r, tier, tag):
                 if (type(res).__name__ != type(obj).__name__):
                     chk.violation(f"cx/{kind}/{cname}/result-type", dict(rep, got=type(res).__name__), size=n)
                 chk.nontriv(hash((tag, kind, json.dumps(els), tuple(ends), ps, cname)))
-                chk.count(f"{cname}:{'index' if ps else 'no-index'}"); chk.count("pattern:" + pname.split("-")[0]); chk.count("history:" + hist)
+                chk.count(f"{cname}:{'index' if ps else 'no-index'}"); chk.count("pattern:" + pname.split("-")[0]); chk.count("history:" + hist); chk.count("window-offset:" + ("0" if not pad else ">0"))
     chk.sample(dict(kind=kind, family=tag, elements=els[:4], example_slice=list(boxes[0])), cap=8)
 
 
@@ -214,7 +224,13 @@ def main(tier):
 def replay(path):
     rep = json.load(open(path))
     kind, els, ends = rep["kind"], rep["elements"], rep["slice_ends"]
-    arr = geo.make_array(kind, els, "float64")
+    pad = rep.get("window_offset", 0)
+    if pad:
+        filler = [e for e in els if e is not None and geo.verts_of(kind, e)]
+        front = [filler[(i * 7 + 1) % len(filler)] for i in range(pad)]
+        arr = geo.make_array(kind, front + els + [filler[2 % len(filler)]], "float64")[pad:pad + len(els)]
+    else:
+        arr = geo.make_array(kind, els, "float64")
     if rep.get("page_size"):
         arr.build_sindex(p=rep.get("p", 10), page_size=rep["page_size"])
     res = arr.cx[ends[0]:ends[1], ends[2]:ends[3]]
